@@ -26,7 +26,7 @@ for p in props:
 EXTRA_MODULES = sorted({e["module"] for l in json.load(open(os.path.join(os.path.dirname(os.path.abspath(__file__)), "theorems_extra.json"))).values() for e in l})
 m = dict(
     version=1,
-    setup_cmd="/venv/bin/python harness/py2lean.py; /venv/bin/python harness/py2lean_loops.py; /venv/bin/python harness/pyclass2lean.py; /venv/bin/python harness/pyfunc2lean.py; /venv/bin/python harness/pyevent2lean.py; /venv/bin/python harness/pyinit2lean.py; /venv/bin/python harness/pyinvest2lean.py; /venv/bin/python harness/pysimple2lean.py; /venv/bin/python harness/pydisc2lean.py; /venv/bin/python harness/pyperc2lean.py; /venv/bin/python harness/pyargs2lean.py; /venv/bin/python harness/pyfsir2lean.py; /venv/bin/python harness/pyglue2lean.py; /venv/bin/python harness/pyhelp2lean.py; /venv/bin/python harness/pymat2lean.py; /venv/bin/python harness/pywrap2lean.py; /venv/bin/python harness/pyglue3lean.py; /venv/bin/python harness/pypm2lean.py; cd lean && lake build EoNVerif driver && lake build EoNVerif.Props EoNVerif.Props.C01c EoNVerif.Props.C01d && (lake build EoNVerif.Props.Gen EoNVerif.Props.GenLoops EoNVerif.Props.GenLoops2 EoNVerif.Props.C16b drivergen drivergill drivercc driveres driverfs driverns driverinit driverinv driversc driverdisc driverperc driverargs driverfsir driverglue driverhelp driverwrap driverglue2 driverpm || true); for m in " + " ".join(EXTRA_MODULES) + "; do lake build $m || true; done",
+    setup_cmd="/venv/bin/python harness/py2lean.py; /venv/bin/python harness/py2lean_loops.py; /venv/bin/python harness/pyclass2lean.py; /venv/bin/python harness/pyfunc2lean.py; /venv/bin/python harness/pyevent2lean.py; /venv/bin/python harness/pyinit2lean.py; /venv/bin/python harness/pyinvest2lean.py; /venv/bin/python harness/pysimple2lean.py; /venv/bin/python harness/pydisc2lean.py; /venv/bin/python harness/pyperc2lean.py; /venv/bin/python harness/pyargs2lean.py; /venv/bin/python harness/pyfsir2lean.py; /venv/bin/python harness/pyglue2lean.py; /venv/bin/python harness/pyhelp2lean.py; /venv/bin/python harness/pymat2lean.py; /venv/bin/python harness/pywrap2lean.py; /venv/bin/python harness/pyglue3lean.py; /venv/bin/python harness/pypm2lean.py; /venv/bin/python harness/pysi2lean.py; cd lean && lake build EoNVerif driver && lake build EoNVerif.Props EoNVerif.Props.C01c EoNVerif.Props.C01d && (lake build EoNVerif.Props.Gen EoNVerif.Props.GenLoops EoNVerif.Props.GenLoops2 EoNVerif.Props.C16b drivergen drivergill drivercc driveres driverfs driverns driverinit driverinv driversc driverdisc driverperc driverargs driverfsir driverglue driverhelp driverwrap driverglue2 driverpm driversi || true); for m in " + " ".join(EXTRA_MODULES) + "; do lake build $m || true; done",
     hooks=dict(guard="EON_VERIF", enable="no hooks: the harness substitutes module attributes of EoN.simulation / EoN.analytic at run time",
                baseline_off_cmd="cd /repo && /venv/bin/python -m pytest -ra -q -p no:cacheprovider --timeout=900 --continue-on-collection-errors",
                source_commits=[], add_only=True),
